@@ -12,11 +12,14 @@ META = {
                "(functions and const items) has an enum discriminant or a constant as operand and all discriminants / the "
                "constant fit the target type; R-3 From<TryFromIntError> for CoseError is the constant OutOfRangeIntegerValue and "
                "the residual converted at each narrowing site is TryFromIntError; R-4 integers reach the output only through "
-               "Value::from(i64|u64) / i64::into(Integer) with no arithmetic on the way.",
+               "Value::from(i64|u64) / i64::into(Integer) with no arithmetic on the way; R-5 at every call of a crate-local function from which a "
+               "narrowing site is reachable, the Err side of each test of the result (`?`, match) reaches no success exit, and no "
+               "combinator replaces the error by a value.",
     "does_not_decide": "that ciborium's TryFrom<Integer> for i64/u64 is checked and From<i64|u64> lossless (dependency; trusted), "
                        "and that uninterpreted integers in extra parameters survive (they are never touched: C08 R-1)",
     "trusted_base": ["ciborium::value::integer::Integer TryFrom/From implementations", "rustc MIR cast semantics"],
 }
+META["decides"] += ' (As built: a narrowing may also be followed by an explicit map_err to OutOfRangeIntegerValue; a signed->unsigned cast of a value that the selecting guard proves non-negative is exact.)'
 
 INTEGER = "ciborium::value::integer::Integer"
 TRY_INTO = "core::convert::TryInto::try_into"
@@ -226,6 +229,132 @@ def check(ctx):
                    "integer reaches the output through a lossless From<%s> with no arithmetic on the way" % src,
                    where=f.where(bb), detail={"value": show(a)[:120]}, sample={"fn": f.key, "value": show(a)[:120], "via": full})
     ctx.floor("R-4", "widening sites", nw, 9)
+
+    # ---- R-5 the rejection reaches the caller ---------------------------------------------------------------------------
+    check_rejections_propagate(ctx, "R-5", {f.key for f, _, _ in narrow})
+
+
+TRY_BRANCH = "core::ops::try_trait::Try::branch"
+OUT_OF_RANGE = ("aggr", "common::CoseError", "OutOfRangeIntegerValue", ())
+
+
+def _failure_side(f, start, site):
+    from lib.guards import reach_tracking_failures
+    return reach_tracking_failures(f, start, {site})
+
+
+def check_rejections_propagate(ctx, rule, narrowing_fns):
+    """no caller turns the rejection of an integer into acceptance.
+
+    S = crate-local functions from which a narrowing site (or a literal OutOfRangeIntegerValue) is reachable in the call
+    graph.  At every call of a member of S whose result is tested (`?`, `match`, `if let`), the blocks on the Err side of
+    the test must not reach a definition of a success return value without passing through the call again; and the result
+    must not be the receiver of a combinator chain whose Err case reduces to anything but an Err."""
+    from lib.callgraph import CallGraph
+    from lib.guards import edge_condition, cond_variants
+    from lib import combinators as cb
+    prog = ctx.prog
+    cg = CallGraph(prog)
+    seeds = set(narrowing_fns)
+    for f in prog.real_fns():
+        for b in f.blocks:
+            for s in b["stmts"]:
+                if s["k"] == "assign" and s["rv"]["k"] == "aggr" and s["rv"].get("variant") == "OutOfRangeIntegerValue":
+                    seeds.add(f.key)
+    # reverse reachability over call edges (not fnref/closure creation: those are followed when called)
+    rev = {}
+    for a, m in cg.edges.items():
+        for b in m:
+            rev.setdefault(cg.def_of(b), set()).add(a)
+            rev.setdefault(b, set()).add(a)
+    S = set()
+    st = list(seeds)
+    while st:
+        x = st.pop()
+        if x in S:
+            continue
+        S.add(x)
+        st.extend(rev.get(x, ()))
+        st.extend(rev.get(cg.def_of(x), ()))
+    S_defs = {cg.def_of(x) for x in S} | S
+    nsites = ntests = 0
+    for f in prog.real_fns():
+        if f.key in prog.fully_inlined or not f.blocks:
+            continue
+        sites = set()
+        for tgt, uses in cg.edges.get(f.key, {}).items():
+            if tgt in S_defs or cg.def_of(tgt) in S_defs:
+                sites.update(bb for kind, bb in uses if kind in ("call", "cha"))
+        sites = {bb for bb in sites if "Result<" in (f.local_ty(f.blocks[bb]["term"]["dest"]["l"]) or "")
+                 and not f.blocks[bb]["term"]["dest"]["p"]}
+        if not sites:
+            continue
+        nsites += len(sites)
+        pv = Prov(f)
+
+        def site_of(x):
+            """block of the S-call whose Result the term x is"""
+            if x[0] == "call" and len(x) > 3 and x[3][0] == f.key and x[3][1] in sites:
+                return x[3][1]
+            return None
+
+        returns_result = "Result<" in (f.local_ty(0) or "")
+        okdefs = [o for o in outcomes(f, pv) if o["kind"] == "ok"] if returns_result else None
+        for d, blk in enumerate(f.blocks):
+            if blk["cleanup"] or blk["term"]["k"] != "switch" or d not in f.cfg.reach:
+                continue
+            for s in set(f.cfg.succ[d]):
+                c = edge_condition(f, pv, d, s)
+                cv = cond_variants(prog, pv, c) if c else None
+                if not cv:
+                    continue
+                subj, names = cv
+                site = None
+                if names and names <= {"Err"}:
+                    site = site_of(subj)
+                elif names and names <= {"Break"} and is_call(subj, TRY_BRANCH):
+                    site = site_of(subj[2][0])
+                if site is None:
+                    continue
+                ntests += 1
+                seen = _failure_side(f, s, site)
+                if returns_result:
+                    bad = [o for o in okdefs if o["bb"] in seen]
+                    where_bad = ["line %s" % o["line"] for o in bad]
+                else:
+                    bad = [x for x in seen if f.blocks[x]["term"]["k"] == "return"]
+                    where_bad = ["the normal return"] if bad else []
+                callee = callee_path(f.blocks[site]["term"])
+                ctx.ob(rule, "propagates:%s:%s" % (f.key, callee), not bad,
+                       "a rejection by %s (which can be an out-of-range integer) leaves %s as an error: no success exit is "
+                       "reachable from the Err side of the test" % (callee, f.key), where=f.where(site),
+                       detail={"test_block": d, "success_exits_reached": where_bad})
+        # combinator chains on the result
+        for bb, t in f.calls():
+            ct = pv.call_term(bb)
+            if not cb.is_combinator(ct):
+                continue
+            recv = ct
+            while cb.is_combinator(recv):
+                recv = recv[2][0]
+            if site_of(recv) is None:
+                continue
+            for conds, v in cb.reduce(prog, ct):
+                errcase = any(cs == recv and k == "variant" and set(vs) <= {"Err"} for cs, k, vs in conds)
+                if not errcase:
+                    continue
+                k = cb._ctor(v)
+                if k and k[1] in ("Err", "None"):
+                    continue        # still a failure (None: an Option the caller has to test; not judged here)
+                if v[0] == "field" and v[1][0] == "variant" and v[1][2] == "Err":
+                    continue        # the error value itself (e.g. `.err()`, `.unwrap_err()`)
+                ntests += 1
+                ctx.ob(rule, "propagates:%s:%s" % (f.key, callee_path(f.blocks[site_of(recv)]["term"])), False,
+                       "a rejection by %s is replaced by %s in %s" % (callee_path(f.blocks[site_of(recv)]["term"]), show(v)[:60], f.key),
+                       where=f.where(bb))
+    ctx.count("calls whose rejection can be an out-of-range integer", nsites)
+    ctx.count("tests of such results (`?`, match)", ntests)
+    ctx.floor(rule, "tested fallible integer-decoding calls", ntests, 20)
 
 
 def thorough(ctx):
